@@ -358,6 +358,16 @@ func (rn *c10Runner) runChild(cases []c10Case, tag string) (inflight int, timedO
 		timedOut = true
 	}
 	done, started, tmo := c10ReadResults(rpath)
+	if dbg := os.Getenv("VERIF_C10_DEBUGLOG"); dbg != "" { // cost diagnosis of the harness itself
+		if rb, err := os.ReadFile(rpath); err == nil {
+			rn.mu.Lock()
+			if f, err := os.OpenFile(dbg, os.O_APPEND|os.O_CREATE|os.O_WRONLY, 0o644); err == nil {
+				f.Write(rb)
+				f.Close()
+			}
+			rn.mu.Unlock()
+		}
+	}
 	rn.mu.Lock()
 	for id, r := range done {
 		rn.results[id] = r
